@@ -24,6 +24,8 @@ FAULTS = [
     "cd /nonexistent/dir", "X=1 cd /nonexistent/dir", "read -r l < in", "read -r l < missing", "while read -r l; do :; done < in", "x=1 y=2 true", "X=1 eval 'Y=2 false'",
     "echo a | cat | cat >/dev/null", "nosuchcmd | cat", "cat in | nosuchcmd", "[[ a == b ]]", "(( 1 / 0 ))", "echo $(( 1 / 0 ))", "local_outside=1", "declare -A m; m[k]=v; unset m",
     "exec 8< in; read -r l <&8; exec 8<&-", "exec 7> f7", "cat < in > out.tmp", "fsub", "fdefok", "source_ok", "X=1 fdef", "trap ':' USR1; trap - USR1",
+    "head -n1 <(gen 300000 1) >/dev/null", "read -r l < <(gen 300000 2)", ": <(gen 300000 3)", "nosuchcmd <(gen 300000 4)", "cat <(gen 300000 5) > /nonexistent-dir/x",
+    "gen 300000 6 | head -n1 >/dev/null", "gen 300000 7 | { read -r l; }", "echo x > >(exit 0)", "x=$(gen 300000 8 | head -c 10)", "fpsub",
     "alias q=echo; unalias q", "pushd / >/dev/null; popd >/dev/null", "set -- a b; shift", "hash -r", "type nosuchcmd", "command -v ls >/dev/null", "wait",
 ]
 
@@ -36,6 +38,7 @@ fdefok() { echo infdef; } > fdefok.out
 g1() { local l=1; ./missing-cmd; X=1 /nonexistent/bin/cmd; }
 fsub() ( exit 4 )
 source_ok() { . ./ok.sh; }
+fpsub() { local l; read -r l < <(gen 200000 9); return 2; }
 e() { echo "@m $1"; return $2; }
 probe() {
   if [ -n "${BRUSH_SAVE-}" ]; then save > "$D/$1.json" 2>/dev/null; fi
@@ -99,14 +102,16 @@ def read_metrics(d, tag):
         pass
     try:
         with open(os.path.join(d, tag + ".fdc")) as f:
-            totals, zombies = [], []
+            totals, zombies, children = [], [], []
             for line in f:
                 kv = dict(x.split("=") for x in line.split()[1:] if "=" in x)
                 totals.append(int(kv["total"]))
                 zombies.append(int(kv["zombies"]))
+                children.append(int(kv.get("children", 0)))
             if totals:
                 m["os_fds"] = min(totals)
                 m["zombies"] = min(zombies)
+                m["children"] = min(children)
     except (OSError, ValueError, KeyError):
         pass
     return m
@@ -147,6 +152,13 @@ def judge(run, case):
             bad.append(("os_fds", m2["os_fds"], mn["os_fds"]))
         elif growth >= 5:
             run.count("os_fd_growth_inconclusive")
+    # live (not only zombie) children left behind: a producer whose consumer went away must have been told (SIGPIPE / closed pipe)
+    if m2.get("children") is not None and mn.get("children") is not None:
+        cg = mn["children"] - m2["children"]
+        if cg >= max(6, n // 8):
+            bad.append(("live_children", m2["children"], mn["children"]))
+        elif cg >= 3:
+            run.count("live_children_growth_inconclusive")
     if o2 is not None and o2 != on:
         bad.append(("iteration_output", hashlib.sha1(o2).hexdigest()[:8], hashlib.sha1(on).hexdigest()[:8]))
     if not bad:
